@@ -105,7 +105,8 @@ impl Ssh {
                                 }
                             }
                         } else {
-                            // TODO: what should we do if it's None?
+                            tracing::info!("channel closed, hanging up");
+                            break;
                         }
                     }
                 }
